@@ -425,10 +425,19 @@ def run_cases(exe, lines, shards=NPROC):
     surfaces as a disagreement / failure wherever the answer is compared, instead of vanishing."""
     if not lines:
         return {}
-    ids = [l.split('\t', 1)[0] for l in lines]
-    if len(set(ids)) != len(ids):
-        dup = sorted(i for i in set(ids) if ids.count(i) > 1)[:5]
-        raise RuntimeError('run_cases: case ids repeated within one batch (answers are keyed by id): %s' % dup)
+    # answers are keyed by id: the same id on two DIFFERENT lines would alias two cases (an error of the check);
+    # a line that simply occurs twice is sent once
+    seen = {}
+    uniq = []
+    for l in lines:
+        cid = l.split('\t', 1)[0]
+        if cid in seen:
+            if seen[cid] != l:
+                raise RuntimeError('run_cases: case id %r names two different cases within one batch (answers are keyed by id)' % cid)
+            continue
+        seen[cid] = l
+        uniq.append(l)
+    lines = uniq
     n = max(1, min(shards, len(lines) // 50 + 1))
     parts = [lines[i::n] for i in range(n)]
     res = {}
